@@ -19,7 +19,7 @@ LEVEL_TEXT = ("The device reports a generated thermostat state; the call passes 
               "an unsuccessful response. Thorough enumerates the full state x subset x remote-kind x flag grid with one value draw each.")
 RULE = ("case = (IR-set spec, reported state, requested subset with values, update-only flag, fault step or none, ids, session, time); "
         "non-trivial = at least one setting omitted and at least one given; distinct by the whole case."
-        ' A third of the non-fault cases run an earlier control call on the same API and remote objects first (clock gap 0, 1 or 60 s); half of the fault cases use one empty read while the stream goes on instead of an EOF. A third of the non-fault cases build the remote object right after another remote object (a sparser sibling set) was used and dropped (churn). slow-device: a device that answers by request kind, 0.3 s per answer, with one answer 2 s .. 1 h late under the harness-owned loop clock, optionally followed by a step that gets no answer.')
+        ' A third of the non-fault cases run an earlier control call on the same API and remote objects first (clock gap 0, 1 or 60 s); half of the fault cases use one empty read while the stream goes on instead of an EOF. A third of the non-fault cases build the remote object right after another remote object (a sparser sibling set) was used and dropped (churn); a quarter run while a bridge in the same loop has just heard the same thermostat broadcast a different state (bridge_heard). slow-device: a device that answers by request kind, 0.3 s per answer, with one answer 2 s .. 1 h late under the harness-owned loop clock, optionally followed by a step that gets no answer.')
 ASSUMPTIONS = [
     "thermostat state-reply layout and frame layouts of DESIGN appendix A; IR lookup semantics of C15's reference (cases it leaves unspecified are skipped)",
     "target_temp=0 and None mean 'omitted' (the API's defaults)",
@@ -86,6 +86,7 @@ def script_for(case, nframes):
 async def exchange(case, script):
     dev = await env.device()
     cl = ops.Client(dev, 2, case["device_id"], "18")
+    rig = None
     await cl.connect()
     try:
         nbefore = 0
@@ -116,6 +117,23 @@ async def exchange(case, script):
             from ..fake import tcpdev
             tcpdev.install_empty_read_injector()
             tcpdev.EMPTY_READS[cl.conn.peer] = {"k": k, "count": 0}
+        if case.get("bridge_heard"):
+            # a bridge runs in the same loop and has just heard this very thermostat (same id, same address) broadcast a
+            # DIFFERENT state: "the value the device itself just reported" is still the one in the reply to this call's query
+            from ..fake import udptx
+            from ..ref import broadcast as refb
+            cur = case["cur"]
+            rig = udptx.Rig(1)
+            await rig.start()
+            other = {"model": "0e01", "device_id": case["device_id"], "key": 0x18, "name": "Breeze", "ip": [int(x) for x in dev.ip.split(".")],
+                     "mac": [2, 0, 0, 0, 0, 7], "on": not cur["on"], "mode": 1 + (irset.MODE_BYTE[cur["mode"]] % 5),
+                     "target": 16 + (cur["target"] + 3) % 15, "fan": (cur["fan"] + 1) % 4, "swing": 0 if cur["swing"] else 1,
+                     "temp_tenths": 199, "remote_id": cur.get("remote_id", "ELEC7001")}
+            try:
+                await rig.send(rig.ports[0], refb.encode(other))
+                await rig.barrier()
+            except Exception:
+                pass
         remote, _ = ops.remote_for(case["ir"])
         if case.get("churn"):
             # another remote object (a sparser sibling of this code set) lived and died in this process just before this one
@@ -152,6 +170,11 @@ async def exchange(case, script):
                 return "skip", None, []           # the client never made that read(): nothing was injected
         return out[0], out[1], list(cl.conn.frames[nbefore:])
     finally:
+        if rig is not None:
+            try:
+                await rig.stop()
+            except Exception:
+                pass
         from ..fake import tcpdev as _t
         _t.EMPTY_READS.pop(cl.conn.peer if cl.conn else None, None)
         await cl.close()
@@ -240,6 +263,8 @@ def body(rep, case, sub="dense"):
               "toggle" if case["ir"]["toggle"] else "non-toggle", "update-only" if case.get("update") else "ir-command"]
     if case.get("churn"):
         labels.append("remote-built-after-another-died")
+    if case.get("bridge_heard"):
+        labels.append("a-bridge-in-the-loop-heard-another-state")
     fault = case.get("fault")
     if fault is not None:
         labels.append(f"eof@step{fault}")
@@ -366,7 +391,7 @@ def strat(dense, faults):
                 cur_states(modes_w, edge), requests(modes_w, edge), st.booleans(),
                 st.integers(0, 3) if faults else st.none(), gen.device_ids, gen.sessions, gen.timestamps, st.integers(1, 100),
                 st.booleans() if faults else st.just(False)).flatmap(
-                    lambda c: st.one_of(st.just(c), st.just(dict(c, churn=True)), st.builds(
+                    lambda c: st.one_of(st.just(c), st.just(dict(c, churn=True)), st.just(dict(c, bridge_heard=True)), st.builds(
                         lambda cur0, req0, up0, gap: dict(c, first={"cur": cur0, "req": req0, "update": up0, "gap": gap}),
                         cur_states(modes), requests(modes), st.booleans(), st.sampled_from([0, 0, 1, 60]))) if not faults else st.just(c))
         return specs.flatmap(with_spec)
